@@ -124,6 +124,8 @@ def parse(path):
                     u.setdefault("drops", []).append(v)
                 elif k == "not_covered":
                     u.setdefault("not_covered", []).append(v)
+                elif k == "expect":
+                    u.setdefault("expects", []).append(v)
                 elif k == "paired_kani":
                     u.setdefault("paired_kani", []).extend(v.split())
                 else:
@@ -249,6 +251,14 @@ def generate(u, repo, specs_dir, twin_of=None):
     out.append(u["prelude"])
     out.append("\n")
     meta = {"items": []}
+    # `expect:` lines: token sequences of /repo that the prelude mirrors by hand (constants); if one is
+    # no longer present exactly once the unit is undecided (lost anchor), never silently stale
+    for ex in u.get("expects", []):
+        rel, _, txt = ex.partition("::")
+        toks = rsx.tokenize(open("%s/%s" % (repo, rel.strip()), encoding="utf-8").read())
+        hits = rsx.find_seq(toks, rsx.texts(rsx.tokenize(txt)))
+        if len(hits) != 1:
+            raise rsx.LostAnchor("expected text `%s` found %d times in %s" % (txt.strip(), len(hits), rel.strip()))
     for idx, it in enumerate(u["items"]):
         item = rsx.extract(repo, it["relpath"], it["steps"])
         contracted = apply_edits(item, it["edits"], twin_false=(twin_of == idx))
